@@ -98,6 +98,18 @@ CLAIMED = {
         text="MCRadio proves for every 10 MHz-aligned band in 0-1650 MHz that the field bins and the antenna/noise bins are the same set. Bands (all in thorough, 289 in quick) are pushed through RadioEFieldParams and calculate_snr with the antenna-voltage and noise functions wrapped to log the bin centres they receive; TLC compares count and centres with the spec sets. Shower batches come from the real geometry/tau/decay stages (33, 525, 2000 km; energies 1e9-1e11 GeV) with boundary altitudes made geometrically consistent and a decay exactly at the surface; each is evaluated with E and 3E, 3 and 12 antennas, permuted, under a constant random stream: proportionality (1e-13), sqrt(N) law, order independence (bitwise), exact zeros outside [0, 10] km, finiteness.",
         note="Assumes: fixed random numbers = constant np.random stream; field bin centres are the centres of the shipped parameter file.",
         design="4/C20"),
+    "C01": dict(
+        category="model_checking",
+        technique="TLA+ spec GeomDiffuse.tla (region, CDFs, densities, measure, Jacobian identity, quantile) model-checked on a lattice of 120 regions; every thrown trajectory and a Sobol equal-weight quadrature of mcintegral validated by TraceGeomDiffuse.tla against an independent aperture quadrature evaluated by TLC",
+        text="MCGeomDiffuse checks for altitudes 5..36000 km x limb x cone x azimuth range that the four CDFs are 0/1 at the region's ends, the densities are their derivatives, weight x mcnorm x pdf equals integrand x measure density pointwise, and the trigonometric quantile inverts the CDF on the closed interval. RegionGeom.throw(u) is driven with u on faces, corners, denormals and 1-2^-53 of the closed cube and random u; per event TLC checks the four inverse-CDF clauses as backward errors (1e-9), mcnorm against its closed form (1e-11), the Jacobian identity on the reported cosines, the keep rule from explicit vectors. A scrambled-Sobol equal-weight sum of the estimator (2^20 points quick, 2^23 thorough; 6 configurations) is compared by TLC (0.3 %) with a midpoint rule over an independent physical parametrisation (normal-to-line-of-sight angle x cone angle, azimuth integral in closed form).",
+        note="Assumes: events within 1e-9 of the keep boundary are inconclusive; quadrature band 0.3 % (observed agreement <= 0.04 %); small-angle errors below that band are caught by the per-event mcnorm / identity clauses.",
+        design="4/C01"),
+    "C02": dict(
+        category="model_checking",
+        technique="TLA+ spec GeomDiffuse.tla (explicit ECEF vectors, emergence angle, positions along the trajectory) with the lattice model MCGeomDiffuse; every thrown trajectory, reported position and __call__ return validated by TraceGeomDiffuse.tla (stateful: azimuth convention inferred per series)",
+        text="Same traces as C01. Per event TLC checks: line-of-sight length in [lMin, lMax] and CDF(l) = u4 on the closed cube (faces included); spot latitude/longitude ranges; |D - S| = l and the Earth-central angle from explicit ECEF vectors of detector and spot; cos(trajectory, normal) and the emergence angle recomputed from explicit vectors; the keep rule; that the spot azimuth about the detector nadir is phiS under one fixed convention (inferred from the first event of a series, then enforced); positions at s in {0, 1, 50, 500, random} km have the ground offset atan2(s cos b, R + s sin b); __call__ returns one entry per kept trajectory. Detector positions include both poles and the date line.",
+        note="Assumes: altitude of a reported position is not observable (only latitude/longitude are returned), so the offset clause decides that part; 1e-9 inconclusive band at the keep boundary.",
+        design="4/C02"),
 }
 
 NOT_BUILT_REASON = "not claimed yet: its specification module and binding are not finished in this tree (see DESIGN.md section 9 build order); no other technique is substituted"
